@@ -35,8 +35,16 @@ def main() -> int:
         fired = {k: v for k, v in fired.items() if v}
         if d.name.startswith("twin-"):
             ok = not fired and not errs
-            twins.append(f"| {d.name} | {want} | {files} | {'silent' if ok else 'FALSE ALARM: ' + str({k: v[:1] for k, v in fired.items()}) + (' errors ' + str(errs) if errs else '')} |")
-            if not ok:
+            limit = meta.get("known_limit")
+            what = str({k: v[:1] for k, v in fired.items()}) + (' errors ' + str(errs) if errs else '')
+            if ok:
+                res_ = "silent" + (" (documented limit no longer applies)" if limit else "")
+            elif limit:
+                res_ = f"DOCUMENTED LIMIT (false alarm: {what[:160]}) -- {limit}"
+            else:
+                res_ = "FALSE ALARM: " + what
+            twins.append(f"| {d.name} | {want} | {files} | {res_} |")
+            if not ok and not limit:
                 missed.append(d.name)
         else:
             own = "; ".join(x.split(" ", 1)[0] + " " + x.split(" ", 1)[1][:70] for x in fired.get(want, [])[:2]) or "**MISSED**"
